@@ -42,7 +42,7 @@ ASSUMPTIONS = ['F = 0.05 sd is an ABSOLUTE allowance (the one place an absolute 
                'cross-terms ignored by the bias model and the neglected terms of C04 leave a first-order, scale-independent remainder (calibration: <= 0.022 sd over 600 ladders) in '
                'this workload domain (time_step <= 0.5 s, IMU step 12.5 ms, horizon <= 40 s)']
 REQUIRED_OBS = ['transparent_with_small_capacity', 'sd_steps_decided', 'zero_data_sd_compared', 'transparent_runs', 'transparent_with_outside_samples', 'transparent_with_default_measurements', 'ladder_runs', 'ladders_decided',
-                'rerun_checks', 'scale_misal_ladders', 'two_d_ladders', 'ladders_with_two_epochs_in_one_imu_interval', 'ladders_with_roll_through_180', 'ladders_with_decimated_feedforward_trajectory']
+                'rerun_checks', 'scale_misal_ladders', 'two_d_ladders', 'ladders_with_two_epochs_in_one_imu_interval', 'ladders_with_roll_through_180', 'ladders_with_decimated_feedforward_trajectory', 'ladders_with_large_time_origin']
 REQUIRED_CLASSES = {'all': ['transparent', 'ladder', 'rerun']}
 F_ALLOW = 0.05
 TERR = ['north', 'east', 'down', 'VN', 'VE', 'VD', 'roll', 'pitch', 'heading']
@@ -198,9 +198,10 @@ def ladder_config(seed):
         sensors = sensors + [c for c in ('NedVelocity', 'Position') if c not in sensors][:1]
     inverted = bool(crng.random() < 0.3)
     decimate = int(crng.choice([1, 1, 2, 4]))
+    t_origin = float(crng.choice([0.0, 0.0, 4e5]))
     if decimate > 1:
         clustered = False          # (between rows the feedforward filter interpolates the computed trajectory linearly: an unscaled error of its own)
-    return dict(clustered=clustered, inverted=inverted, decimate=decimate, wa=wa, sm=sm, T=T, ts=ts, lla0=lla0, vm=vm.tolist(), va=va.tolist(), period=period, sensors=sensors,
+    return dict(clustered=clustered, inverted=inverted, decimate=decimate, t_origin=t_origin, wa=wa, sm=sm, T=T, ts=ts, lla0=lla0, vm=vm.tolist(), va=va.tolist(), period=period, sensors=sensors,
                 e_pos=(rng.uniform(-1, 1, 3)).tolist(), e_vel=(rng.uniform(-1, 1, 3)).tolist(), e_att=(rng.uniform(-1, 1, 3)).tolist(),
                 gb=(rng.uniform(-1, 1, 3) * 1e-4).tolist(), ab=(rng.uniform(-1, 1, 3) * 0.03).tolist(),
                 smat=(rng.uniform(-1, 1, (3, 3)) * 1e-3).tolist(), nseed=int(rng.integers(0, 2 ** 31)),
@@ -215,6 +216,10 @@ def ladder_run(cfg, s):
     # the ladder inside the 'error scale s' regime also when dense accurate fixes shrink the standard deviations to mm/s
     ST = 'increment'
     traj, imu = sim.generate_sine_velocity_motion(DT, cfg['T'], cfg['lla0'], cfg['vm'], cfg['va'], cfg['period'], sensor_type=ST)
+    if cfg.get('t_origin'):
+        # stamps in seconds of week instead of seconds since start: nothing but the labels changes
+        traj = traj.set_axis(pd.Index(np.asarray(traj.index, float) + cfg['t_origin'], name=traj.index.name))
+        imu = imu.set_axis(pd.Index(np.asarray(imu.index, float) + cfg['t_origin'], name=imu.index.name))
     if cfg.get('inverted'):
         # IMU mounted upside down and rocking: roll swings through +-180 (attitude averaging / interpolation across the roll wrap)
         tt_ = np.asarray(traj.index, float)
@@ -233,7 +238,7 @@ def ladder_run(cfg, s):
     prev_e = np.array([])
     for j, cls in enumerate(cfg['sensors']):
         every = (2.0 + j * 0.75) if not cfg.get('dense') else (0.3 + 0.2 * j)      # dense: fixes cut most covariance steps short
-        e = np.arange(1.0 + 0.4 * j, t[-1] - 0.5, every)
+        e = np.arange(t[0] + 1.0 + 0.4 * j, t[-1] - 0.5, every)
         tg = t[::int(cfg.get('decimate', 1))]
         base = tg[np.clip(np.searchsorted(tg, e), 0, len(tg) - 2)]
         e = base
@@ -315,6 +320,7 @@ def run_ladder(case, out, obs):
     obs['scale_misal_ladders'] = int(cfg['sm'])
     obs['two_d_ladders'] = int(not cfg['wa'])
     obs['ladders_with_decimated_feedforward_trajectory'] = int(cfg.get('decimate', 1) > 1)
+    obs['ladders_with_large_time_origin'] = int(bool(cfg.get('t_origin')))
     obs['ladders_with_roll_through_180'] = int(bool(cfg.get('inverted')))
     obs['ladders_with_two_epochs_in_one_imu_interval'] = int(bool(cfg.get('clustered')))
     if cfg.get('clustered'):
